@@ -262,7 +262,13 @@ def check_immediacy(check, an: Analysis, rule: str):
             holds = [e for e in path.events if e.kind == 'test'
                      and e.get('key') == ('truth', 'self')]
             sched = [e for e in path.events if is_call_to(e, 'schedule')]
-            parked = any(is_call_to(e, '__subscribe__', NOTIFICATION) for e in path.events)
+            parked = any(is_call_to(e, '__subscribe__', NOTIFICATION) or (
+                e.kind == 'call' and isinstance(e.node, ast.Call)
+                and isinstance(e.node.func, ast.Attribute) and e.node.func.attr == 'append'
+                and rules.value_text(path, i, e.node.func.value) == 'self._waiting'
+                and [rules.value_text(path, i, a) for a in e.node.args] == [
+                    '(%s)' % ', '.join(a.arg for a in method.node.args.args[1:3])])
+                for i, e in enumerate(path.events))
             if holds and key_truth(holds[0]):
                 undated = bool(sched) and not any(
                     kw.arg in ('delay', 'at') for kw in sched[0].node.keywords)
